@@ -32,6 +32,8 @@ pub mod init;
 pub mod model;
 mod roller;
 pub mod subscriber;
+#[cfg(excsn_fibre_verif)]
+pub mod verif;
 
 #[cfg(debug_assertions)]
 pub mod debug_report;
